@@ -19,6 +19,7 @@ import (
 	"errors"
 	"fmt"
 	"sync"
+	"sync/atomic"
 
 	internal "github.com/flanglet/kanzi-go/v2/internal"
 )
@@ -372,6 +373,12 @@ func (this *BWT) inverseBiPSIv2(src, dst []byte, count int) (uint, uint, error) 
 		return 0, 0, errors.New("Invalid input: corrupted BWT primary index")
 	}
 
+	for i := 0; i < GetBWTChunks(count); i++ {
+		if this.PrimaryIndex(i) > uint(count) {
+			return 0, 0, errors.New("Invalid input: corrupted BWT primary index")
+		}
+	}
+
 	freqs := [256]int{}
 	internal.ComputeHistogram(src[0:count], freqs[:], true, false)
 	buckets := make([]int, 65536)
@@ -484,20 +491,32 @@ func (this *BWT) inverseBiPSIv2(src, dst []byte, count int) (uint, uint, error) 
 	nbTasks := min(int(this.jobs), chunks)
 	jobsPerTask, _ := internal.ComputeJobsPerTask(make([]uint, nbTasks), uint(chunks), uint(nbTasks))
 	var wg sync.WaitGroup
+	var failed int32
 
 	for j, c := 0, 0; j < nbTasks; j++ {
 		wg.Add(1)
 		start := c * ckSize
 
 		go func(dst []byte, buckets []int, fastBits []uint16, indexes []uint, total, start, ckSize, firstChunk, lastChunk int) {
+			defer wg.Done()
+			defer func() {
+				// Invalid data must not crash the process from a helper goroutine
+				if r := recover(); r != nil {
+					atomic.StoreInt32(&failed, 1)
+				}
+			}()
+
 			this.inverseBiPSIv2Task(dst, buckets, fastBits, indexes, total, start, ckSize, firstChunk, lastChunk)
-			wg.Done()
 		}(dst, buckets[:], fastBits, this.primaryIndexes[:], count, start, ckSize, c, c+int(jobsPerTask[j]))
 
 		c += int(jobsPerTask[j])
 	}
 
 	wg.Wait()
+
+	if atomic.LoadInt32(&failed) != 0 {
+		return 0, 0, errors.New("Invalid input: corrupted BWT data")
+	}
 
 	dst[count-1] = byte(lastc)
 	return uint(count), uint(count), nil
